@@ -3,7 +3,7 @@
 # (default /repo) and reports every test of BASELINE.stable_pass that does not pass.
 d=${1:-/repo}
 out=$(mktemp /var/tmp/junit.XXXXXX.xml)
-cd "$d" && MPLBACKEND=Agg /venv/bin/python -m pytest -ra -q -p no:cacheprovider --timeout=900 --continue-on-collection-errors --junitxml="$out" >/dev/null 2>&1
+cd "$d" && PYTHONPATH="$d/src" MPLBACKEND=Agg /venv/bin/python -m pytest -ra -q -p no:cacheprovider --timeout=900 --continue-on-collection-errors --junitxml="$out" >/dev/null 2>&1
 /venv/bin/python - "$out" <<'PY'
 import json, sys
 import xml.etree.ElementTree as ET
